@@ -131,7 +131,7 @@ class Scales(ABC):
         if len(scale_min) != len(scale_max):
             # TODO: ConfigError
             raise ValueError("number of elements in min and max scales does not match")
-        if np.any((scale_max - scale_min) <= 0.0):
+        if not np.all((scale_max - scale_min) > 0.0):
             raise ValueError(  # TODO: ConfigError
                 "all min scales must be smaller than corresponding max scales"
             )
